@@ -130,6 +130,8 @@ type e3Engine struct {
 	rounds   int
 	nAnalysed int
 	retFindCache map[string][]e3Finding
+	// bypassUio: analyse uio's own code instead of applying the Lexer ADT rows (used to re-derive the rows)
+	bypassUio bool
 }
 
 type e3Finding struct{ short, pos, detail string }
@@ -1358,7 +1360,7 @@ func (st *fstate) call(in ssa.Instruction, c *ssa.CallCommon, res ssa.Value) {
 				fvsets = append(fvsets, fc)
 			}
 		}
-		if m := lookupModel(f); m != nil {
+		if m := lookupModel(f); m != nil && !(st.e.bypassUio && inUio(f)) {
 			st.applyModel(in, f, m, args, as, res, nres)
 			continue
 		}
@@ -1939,4 +1941,86 @@ func (e *e3Engine) resultAliases(f *ssa.Function, idx int) []string {
 	}
 	sort.Strings(out)
 	return out
+}
+
+// e3DeriveLexerModel re-derives the alias/copy/mutation rows of the Lexer ADT from uio's own SSA and
+// compares them with the hand-written table (thorough tier; DESIGN §9).
+func e3DeriveLexerModel(c *Ctx, rule string) {
+	r := c.R
+	e := &e3Engine{c: c, p: c.P, objs: map[string]*Obj{}, summ: map[string]*summary{}, gheap: map[*Obj]oset{},
+		dirty: map[string]bool{}, dependents: map[string]map[string]bool{}, gReaders: map[string]bool{},
+		inProg: map[string]bool{}, implCache: map[*types.Interface][]types.Type{}, reachCache: map[string]bool{}, retFindCache: map[string][]e3Finding{}, bypassUio: true}
+	n := 0
+	var keys []string
+	for k := range modelTable {
+		if strings.Contains(k, "github.com/u-root/uio/uio") {
+			keys = append(keys, k)
+		}
+	}
+	sort.Strings(keys)
+	for _, k := range keys {
+		m := modelTable[k]
+		f := c.P.Func(k)
+		if f == nil || f.Blocks == nil {
+			r.Undecided(rule, "Lexer model row "+k, "-", "the modelled function does not exist in the uio version of this tree")
+			continue
+		}
+		n++
+		s := e.summaryOf(f, nil)
+		e.fixpoint()
+		s = e.summ[funcKey(f)+"|"]
+		name := shortName(f)
+		// result aliasing
+		aliasParam := false
+		fresh := false
+		if len(s.ret) > 0 {
+			for o := range s.ret[0] {
+				switch o.kind {
+				case kPd, kPr:
+					aliasParam = true
+				case kFresh:
+					fresh = true
+				}
+			}
+		}
+		wantAlias := len(m.retAlias) > 0 || len(m.retDeep) > 0
+		wantsHold := len(m.freshHolds) > 0
+		holds := false
+		for o := range s.freshDeep {
+			if o.kind == kPd || o.kind == kPr {
+				holds = true
+			}
+		}
+		if hasPtrResults(f.Signature) && f.Signature.Results().Len() > 0 && !isErrorType(f.Signature.Results().At(0).Type()) {
+			r.Check(aliasParam == wantAlias, rule, name+": result aliasing matches the model row", c.P.pos(f.Pos()), fmt.Sprintf("derived: aliases an argument=%v, model: %v", aliasParam, wantAlias),
+				fmt.Sprintf("uio's code says the result aliases an argument: %v; the model row says %v (fresh=%v)", aliasParam, wantAlias, fresh))
+			if wantsHold {
+				r.Check(holds == wantsHold, rule, name+": what the fresh result keeps referring to matches the model row", c.P.pos(f.Pos()), "freshDeep vs freshHolds", fmt.Sprintf("derived holds-argument=%v, model=%v", holds, wantsHold))
+			}
+		}
+		// mutation of a caller's slice argument (ReadBytes, Read)
+		for _, i := range m.mutElems {
+			found := false
+			for _, mu := range s.muts {
+				if (mu.target.kind == kPd || mu.target.kind == kPr) && mu.target.idx == i {
+					found = true
+				}
+			}
+			r.Check(found, rule, fmt.Sprintf("%s: writes its argument %d as the model row says", name, i), c.P.pos(f.Pos()), "derived mutation on that parameter", "the model row says the argument is written, uio's code does not")
+		}
+		// a row without mutElems must not write other arguments' elements
+		for _, mu := range s.muts {
+			if (mu.target.kind == kPd || mu.target.kind == kPr) && mu.target.idx != 0 {
+				listed := false
+				for _, i := range m.mutElems {
+					if i == mu.target.idx {
+						listed = true
+					}
+				}
+				r.Check(listed, rule, fmt.Sprintf("%s: writes to argument %d are in the model row", name, mu.target.idx), c.P.pos(f.Pos()), "mutElems", "uio's code writes an argument the model row does not list: "+mu.what)
+			}
+		}
+	}
+	r.Count(rule+"-rows", n)
+	r.Expect(rule+"-rows", 25)
 }
